@@ -169,8 +169,13 @@ pub open spec fn interest(name: Seq<char>, macros: Seq<RustLogMacro>, k: int) ->
         ("C03.positions,C17.positions", "positions_ok(inp, result@)"),
         ("C03.positions,C17.positions", "0 <= hw <= inp.len() && forall|j: int| 0 <= j < result@.len() ==> (#[trigger] result@[j]).position.character as int <= hw"),
         ("C03.positions,C17.positions", "__it0.rest().len() > 0 ==> hw <= __it0.rest()[0].start"),
-        ("C11.filter,C13.kind,C14.where,C12.extract", "view_entries(result@) == tree_entries(top.children, inp, *config, top.children.len() - __it0.rest().len())"),
+        ("C13.all", "view_entries(result@) == tree_entries(top.children, inp, *config, top.children.len() - __it0.rest().len())"),
         ("C05.where", LINECOL),
+        ("C03.entries,C05.entries,C06.entries,C11.filter,C14.where", "view_asp(result@, Aspect::Where) == tree_asp(top.children, inp, *config, top.children.len() - __it0.rest().len(), Aspect::Where)"),
+        ("C13.kind,C14.where", "view_asp(result@, Aspect::Kind) == tree_asp(top.children, inp, *config, top.children.len() - __it0.rest().len(), Aspect::Kind)"),
+        ("C12.extract", "view_asp(result@, Aspect::RefString) == tree_asp(top.children, inp, *config, top.children.len() - __it0.rest().len(), Aspect::RefString)"),
+        ("C13.existing", "view_asp(result@, Aspect::RefKv) == tree_asp(top.children, inp, *config, top.children.len() - __it0.rest().len(), Aspect::RefKv)"),
+        ("C13.new", "view_asp(result@, Aspect::Affix) == tree_asp(top.children, inp, *config, top.children.len() - __it0.rest().len(), Aspect::Affix)"),
     ])
     # ghost: the statement's span bounds every position recorded for it
     f.before_stmt("let mut result = Vec::new();", "let ghost inp = code.spec_bytes(); let ghost mut hw: int = 0;\n        ")
@@ -200,7 +205,12 @@ pub open spec fn interest(name: Seq<char>, macros: Seq<RustLogMacro>, k: int) ->
         ("C11.filter,C14.where", "g == top.children[idx] && 0 <= idx < top.children.len() && g.rule == Rule::log_macro && g.children.len() >= 2 && g.children[0].rule == Rule::macro_name"
          " && g.children[1] == ma && ma.rule == Rule::macro_args && is_boundary(inp, ma.start)"
          " && !directive_before(inp, g.children[0].start, ignore_name()) && interest(decode_utf8(text(inp, g.children[0])), %s)" % NMAC),
-        ("C11.filter,C13.kind,C14.where,C12.extract", "view_entries(result@) == tree_entries(top.children, inp, *config, idx)"),
+        ("C13.all", "view_entries(result@) == tree_entries(top.children, inp, *config, idx)"),
+        ("C03.entries,C05.entries,C06.entries,C11.filter,C14.where", "view_asp(result@, Aspect::Where) == tree_asp(top.children, inp, *config, idx, Aspect::Where)"),
+        ("C13.kind,C14.where", "view_asp(result@, Aspect::Kind) == tree_asp(top.children, inp, *config, idx, Aspect::Kind)"),
+        ("C12.extract", "view_asp(result@, Aspect::RefString) == tree_asp(top.children, inp, *config, idx, Aspect::RefString)"),
+        ("C13.existing", "view_asp(result@, Aspect::RefKv) == tree_asp(top.children, inp, *config, idx, Aspect::RefKv)"),
+        ("C13.new", "view_asp(result@, Aspect::Affix) == tree_asp(top.children, inp, *config, idx, Aspect::Affix)"),
         ("C05.where", LINECOL),
     ]
     args_facts = lambda i1: [
@@ -255,10 +265,21 @@ pub open spec fn interest(name: Seq<char>, macros: Seq<RustLogMacro>, k: int) ->
     # inside the scan: the key text comparison is a comparison of the bytes
     f.before_stmt("if kvp_key.as_str() == ref_kvp_key", "proof { lemma_encode_inj(); assert(kvp_spans@[__k - 1] == (kvp_key, kvp_value)); }\n                            ")
     f.before_stmt("ref_kind = LogRefKind::StructuredPreExisting;", "proof { lemma_first_ref_from(kvs, inp, __k - 1); hit = __k - 1; }\n                                        ")
-    f.before_stmt("result.push(ref_entry);", "proof { lemma_positions_push(inp, result@, ref_entry, hw0); lemma_view_push(result@, ref_entry);\n"
+    f.before_stmt("result.push(ref_entry);", "proof { lemma_positions_push(inp, result@, ref_entry, hw0);\n"
                   "                        reveal_strlit(\" = \"); reveal_strlit(\", \"); reveal_strlit(\"; \");\n"
                   "                        assert(\" = \"@ =~= seq![' ', '=', ' ']); assert(\", \"@ =~= seq![',', ' ']); assert(\"; \"@ =~= seq![';', ' ']);\n"
-                  "                        assert(node_entry(g, inp, *config) == Some(view_entry(ref_entry))); // [C11.filter,C13.kind,C13.new,C13.existing,C14.where,C12.extract]\n"
+                  "                        lemma_asp_push(result@, ref_entry, Aspect::Where);\n"
+                  "                        assert(mask_opt(node_entry(g, inp, *config), Aspect::Where) == Some(mask(view_entry(ref_entry), Aspect::Where))); // [C03.entries,C05.entries,C06.entries,C11.filter,C14.where]\n"
+                  "                        lemma_asp_push(result@, ref_entry, Aspect::Kind);\n"
+                  "                        assert(mask_opt(node_entry(g, inp, *config), Aspect::Kind) == Some(mask(view_entry(ref_entry), Aspect::Kind))); // [C13.kind,C14.where]\n"
+                  "                        lemma_asp_push(result@, ref_entry, Aspect::RefString);\n"
+                  "                        assert(mask_opt(node_entry(g, inp, *config), Aspect::RefString) == Some(mask(view_entry(ref_entry), Aspect::RefString))); // [C12.extract]\n"
+                  "                        lemma_asp_push(result@, ref_entry, Aspect::RefKv);\n"
+                  "                        assert(mask_opt(node_entry(g, inp, *config), Aspect::RefKv) == Some(mask(view_entry(ref_entry), Aspect::RefKv))); // [C13.existing]\n"
+                  "                        lemma_asp_push(result@, ref_entry, Aspect::Affix);\n"
+                  "                        assert(mask_opt(node_entry(g, inp, *config), Aspect::Affix) == Some(mask(view_entry(ref_entry), Aspect::Affix))); // [C13.new]\n"
+                  "                        lemma_view_push(result@, ref_entry);\n"
+                  "                        assert(node_entry(g, inp, *config) == Some(view_entry(ref_entry))); // [C13.all]\n"
                   "                    }\n                    ")
     f.after_stmt("insertion_prefix = Some(", " proof { reveal_strlit(\"\"); reveal_strlit(\" = \"); assert(insertion_prefix.unwrap()@ =~= ref_eq_prefix()); }")
     f.after_stmt("let macro_name_str = match macro_name_parsed", " proof { encode_utf8_decode_utf8(macro_name_str@); assert(macro_name_str@ == decode_utf8(text(inp, g.children[0]))); }")
@@ -266,9 +287,19 @@ pub open spec fn interest(name: Seq<char>, macros: Seq<RustLogMacro>, k: int) ->
         ("C03.positions,C17.positions", "positions_ok(code.spec_bytes(), result@)"),
         # the result is exactly what the tree determines: nothing for unconfigured / ignored macros, and the documented kind,
         # position, reference and separators for every other statement
-        ("C11.filter,C13.kind,C14.where,C12.extract", "forall|top: PairG| parse_tree_is(code.spec_bytes(), top) ==> "
+        ("C13.all", "forall|top: PairG| parse_tree_is(code.spec_bytes(), top) ==> "
          "view_entries(result@) == tree_entries(top.children, code.spec_bytes(), *config, top.children.len() as int)"),
         ("C05.where", LINECOL.replace("inp", "code.spec_bytes()")),
+        ("C03.entries,C05.entries,C06.entries,C11.filter,C14.where", "forall|top: PairG| parse_tree_is(code.spec_bytes(), top) ==> "
+         "view_asp(result@, Aspect::Where) == tree_asp(top.children, code.spec_bytes(), *config, top.children.len() as int, Aspect::Where)"),
+        ("C13.kind,C14.where", "forall|top: PairG| parse_tree_is(code.spec_bytes(), top) ==> "
+         "view_asp(result@, Aspect::Kind) == tree_asp(top.children, code.spec_bytes(), *config, top.children.len() as int, Aspect::Kind)"),
+        ("C12.extract", "forall|top: PairG| parse_tree_is(code.spec_bytes(), top) ==> "
+         "view_asp(result@, Aspect::RefString) == tree_asp(top.children, code.spec_bytes(), *config, top.children.len() as int, Aspect::RefString)"),
+        ("C13.existing", "forall|top: PairG| parse_tree_is(code.spec_bytes(), top) ==> "
+         "view_asp(result@, Aspect::RefKv) == tree_asp(top.children, code.spec_bytes(), *config, top.children.len() as int, Aspect::RefKv)"),
+        ("C13.new", "forall|top: PairG| parse_tree_is(code.spec_bytes(), top) ==> "
+         "view_asp(result@, Aspect::Affix) == tree_asp(top.children, code.spec_bytes(), *config, top.children.len() as int, Aspect::Affix)"),
     ]
     u_directive.static_shims(u, statics)
     u.raw("}\n")
